@@ -911,6 +911,28 @@ def val_sexp(v: Any) -> str:
 	raise Unsupported(f'value of {t.__name__}')
 
 
+def val_show(v: Any) -> str:
+	"""canonical spelling of a run-time value (= Val.render of Tranp/Model/PyEval.lean)"""
+	if v is None:
+		return 'none'
+	t = type(v)
+	if t is bool:
+		return 'true' if v else 'false'
+	if t is int:
+		return str(v)
+	if t is float:
+		return 'f'
+	if t is str:
+		return hx(v)
+	if t is list:
+		return '[' + ''.join(val_show(x) + ' ' for x in v) + ']'
+	if t is tuple:
+		return '(' + ''.join(val_show(x) + ' ' for x in v) + ')'
+	if t is dict:
+		return '{' + ''.join(val_show(x) + ' ' for x in v.keys()) + '|' + ''.join(val_show(x) + ' ' for x in v.values()) + '}'
+	raise Unsupported(f'value of {t.__name__}')
+
+
 def gen_value(rng: random.Random, t: Ty) -> Any:
 	k = t[0]
 	if k == 'int':
